@@ -529,6 +529,15 @@ class UserActions(object):
     # Replace negative ids that may refer to rows just added to this table in this bundle.
     row_ids = self._engine.out_actions.summary.translate_new_row_ids(table_id, row_ids)
 
+    # A row listed more than once gets the values listed last. Keep a single entry for it, so that
+    # unchanged-value trimming, undo values and reverse references are all derived from the same
+    # starting state.
+    if len(set(row_ids)) < len(row_ids):
+      last_index = {row_id: i for i, row_id in enumerate(row_ids)}
+      keep = [i for i, row_id in enumerate(row_ids) if last_index[row_id] == i]
+      row_ids = [row_ids[i] for i in keep]
+      columns = {col_id: [values[i] for i in keep] for col_id, values in columns.items()}
+
     # Convert passed-in values to the column's correct types (or alttext, or errors) and trim any
     # unchanged values.
     action, extra_actions = self._engine.convert_action_values(
